@@ -15,15 +15,17 @@ import (
 )
 
 type verifRead struct {
-	data []byte
-	peer net.Addr
-	err  error
+	data       []byte
+	peer       net.Addr
+	err        error
+	closeFirst bool // the server's Close lands while this read is in flight; the datagram is still delivered
 }
 
 type verifConn struct {
 	script []verifRead
 	pos    int
 	closes int
+	srv    *Server
 }
 
 var errVerifRead = errors.New("verif: read failed")
@@ -40,6 +42,9 @@ func (c *verifConn) ReadFrom(b []byte) (int, net.Addr, error) {
 	c.pos++
 	if r.err != nil {
 		return 0, nil, r.err
+	}
+	if r.closeFirst && c.srv != nil {
+		c.srv.Close()
 	}
 	n := copy(b, r.data)
 	return n, r.peer, nil
@@ -105,7 +110,8 @@ func verifDatagram(kind int) []byte {
 }
 
 // VerifC14Serve: a script of up to three reads; kinds: 0/5/6 valid datagrams (see verifDatagram),
-// 1 undecodable bytes, 2 empty read, 4 connection closed concurrently, 9 no slot.
+// 1 undecodable bytes, 2 empty read, 4 connection closed concurrently, 7 valid datagram during
+// whose read the server is closed, 9 no slot.
 func VerifC14Serve(k1, k2, k3 int) {
 	conn := &verifConn{}
 	var want []verifExpect
@@ -117,11 +123,18 @@ func VerifC14Serve(k1, k2, k3 int) {
 		}
 		peer := &net.UDPAddr{IP: net.IP(verifBytes("peer.ip", 16)), Port: int(verifU16("peer.port"))}
 		switch kind {
-		case 0, 5, 6:
-			d := verifDatagram(kind)
-			conn.script = append(conn.script, verifRead{data: d, peer: peer})
+		case 0, 5, 6, 7:
+			k := kind
+			if k == 7 {
+				k = 0
+			}
+			d := verifDatagram(k)
+			conn.script = append(conn.script, verifRead{data: d, peer: peer, closeFirst: kind == 7})
 			if closedAt < 0 {
 				want = append(want, verifExpect{wire: d, peer: peer})
+			}
+			if kind == 7 && closedAt < 0 {
+				closedAt = i + 1 // Close landed during this read: nothing after it is read
 			}
 		case 1:
 			// relay types with a truncated header never decode
@@ -144,6 +157,7 @@ func VerifC14Serve(k1, k2, k3 int) {
 		calls = append(calls, verifCallRec{c, peer, m})
 		mu.Unlock()
 	}}
+	conn.srv = s
 	err := s.Serve()
 	verifSettle() // let every handler goroutine run; messages are inspected only now, after every read
 	verifAssert(err != nil, "serve-returns-the-read-error")
